@@ -20,11 +20,15 @@ package main
 import (
 	"bytes"
 	"fmt"
+	"hash/crc32"
 	"io/ioutil"
 	"math/rand"
 	"os"
 	"path/filepath"
+	"runtime/pprof"
 	"sort"
+	"strings"
+	"sync"
 	"time"
 
 	"github.com/chrislusf/seaweedfs/weed/pb"
@@ -191,7 +195,7 @@ func (p *partA) encode(n int64, sc scale, buf int, dat []byte) ([][]byte, string
 }
 
 // caseA runs all checks for one (scale, size). subsets: shard subsets to delete and rebuild.
-func (p *partA) caseA(sc scale, n int64, buf int, dat []byte, recs []rec, rng *rand.Rand, subsets [][]int, exhaustiveOffsets bool) {
+func (p *partA) caseA(sc scale, n int64, buf int, dat []byte, recs []rec, rng *rand.Rand, subsets [][]int, exhaustiveOffsets bool, rebuildOnly bool) {
 	r := p.r
 	L, S := sc.L, sc.S
 	nLarge, nSmall, class := rowClass(n, L, S)
@@ -201,8 +205,10 @@ func (p *partA) caseA(sc scale, n int64, buf int, dat []byte, recs []rec, rng *r
 	if !ok {
 		return
 	}
-	r.Count("A_sizes", 1)
-	r.Count("A_sizes_"+class, 1)
+	if !rebuildOnly {
+		r.Count("A_sizes", 1)
+		r.Count("A_sizes_"+class, 1)
+	}
 	detail := func(extra map[string]interface{}) map[string]interface{} {
 		m := map[string]interface{}{"part": "A", "L": L, "S": S, "n": n, "buf": buf, "large_rows": nLarge, "small_rows": nSmall,
 			"shard_size": len(shards[0]), "dat": "first n bytes of the seeded source volume (seed in this file)"}
@@ -218,7 +224,7 @@ func (p *partA) caseA(sc scale, n int64, buf int, dat []byte, recs []rec, rng *r
 		}
 	}
 	// the independent layout model against the real shard files, every byte
-	for x := int64(0); x < n; x++ {
+	for x := int64(0); x < n && !rebuildOnly; x++ {
 		sh, o := layout(n, L, S, x)
 		if o >= int64(len(shards[sh])) || shards[sh][o] != dat[x] {
 			r.Violation(lib.Sig{"op": "encode", "class": "shard-layout-differs-from-model", "scale": scs}, detail(map[string]interface{}{"x": x, "shard": sh, "shard_off": o}))
@@ -228,8 +234,12 @@ func (p *partA) caseA(sc scale, n int64, buf int, dat []byte, recs []rec, rng *r
 	if int64(len(shards[0])) != shardSizeFor(n, L, S) {
 		r.Violation(lib.Sig{"op": "encode", "class": "shard-size-differs-from-model", "scale": scs}, detail(nil))
 	}
-	r.Count("A_model_bytes_checked", n)
 	bad := 0
+	if rebuildOnly {
+		bad = 100 // skip the range checks: a sibling job of the same size did them
+	} else {
+		r.Count("A_model_bytes_checked", n)
+	}
 	check := func(off, size int64, kind string) {
 		if size <= 0 || off < 0 || off+size > n {
 			return
@@ -249,7 +259,9 @@ func (p *partA) caseA(sc scale, n int64, buf int, dat []byte, recs []rec, rng *r
 			detail(map[string]interface{}{"off": off, "size": size, "range": kind, "msg": msg}))
 	}
 	// 1. the whole file in one read, and every needle record inside the prefix
-	check(0, n, "whole")
+	if !rebuildOnly {
+		check(0, n, "whole")
+	}
 	for _, rc := range recs {
 		if rc.Off+rc.Len > n || bad > 3 {
 			break
@@ -271,21 +283,29 @@ func (p *partA) caseA(sc scale, n int64, buf int, dat []byte, recs []rec, rng *r
 			add3(b)
 		}
 	} else {
-		for i := 0; i < 6; i++ {
+		for i := 0; i < 3; i++ {
 			add3(rng.Int63n(n/S+1) * S)
 		}
 		if nLarge > 0 {
-			for i := 0; i < 3; i++ {
+			for i := 0; i < 2; i++ {
 				add3(rng.Int63n(nLarge*10) * L)
 			}
 		}
 	}
-	for i := 0; i < 6; i++ {
+	for i := 0; i < 4; i++ {
 		offs[rng.Int63n(n)] = true
 	}
-	sizes := []int64{1, S - 1, S, S + 1, 10*S + 1, L, L + 1, 10*L + 1}
+	sizes := []int64{1, S, S + 1, 10*S + 1, L + 1}
+	if exhaustiveOffsets {
+		sizes = []int64{1, S - 1, S, S + 1, 10*S + 1, L, L + 1, 10*L + 1}
+	}
+	offList := make([]int64, 0, len(offs))
 	for off := range offs {
-		if off < 0 || off >= n {
+		offList = append(offList, off)
+	}
+	sort.Slice(offList, func(i, j int) bool { return offList[i] < offList[j] })
+	for _, off := range offList {
+		if off < 0 || off >= n || rebuildOnly {
 			continue
 		}
 		for _, sz := range sizes {
@@ -300,6 +320,9 @@ func (p *partA) caseA(sc scale, n int64, buf int, dat []byte, recs []rec, rng *r
 		}
 	}
 	// 3. lose up to 4 shards, regenerate, compare
+	if os.Getenv("VERIF_C06_NOREBUILD") != "" { // debugging aid (timing); the run is then marked partial in main
+		subsets = nil
+	}
 	for _, sub := range subsets {
 		for _, id := range sub {
 			r.Must(os.Remove(base+ec.ToExt(id)), "remove shard")
@@ -373,30 +396,33 @@ func runPartA(r *lib.Run) {
 	} else {
 		scales = append(scales, scale{64, 8}) // quick: second scale on a stride of sizes only
 	}
-	p := &partA{r: r, dir: r.SubDir("partA")}
+	type job struct {
+		n    int64
+		buf  int
+		subs [][]int
+		full bool // every block boundary as offset, all sizes
+		only bool // this job only rebuilds (a chunk of a long subset enumeration); the ranges were checked by a sibling job
+	}
+	const workers = 4
 	for si, sc := range scales {
+		sc := sc
 		rng := r.SubRng(fmt.Sprintf("c06-A-%d-%d", sc.L, sc.S))
 		maxN := 2*10*sc.L + 3*10*sc.S
 		dat, recs := buildVolume(r, rng, maxN, int(sc.S*4))
 		r.Count("A_source_records", int64(len(recs)))
 		divs := divisors(sc.S)
-		// sizes at which the full subset enumeration runs: around every structural boundary
+		// sizes at which the subset enumeration runs; first: two large rows plus a partial small row
+		// (both kinds of rows in every shard)
 		special := map[int64]bool{}
-		for _, b := range []int64{1, 10 * sc.S, 10 * sc.L, 10*sc.L + 1, 10*sc.L + 10*sc.S, 2 * 10 * sc.L, 2*10*sc.L + 1, maxN, 10*sc.L - 10*sc.S, 10*sc.L - 20*sc.S + 1, sc.S * 10 * 3, 7} {
+		specialList := []int64{2*10*sc.L + 10*sc.S + 7, 10*sc.L + 1, 10 * sc.S, 7, maxN, 10 * sc.L}
+		for _, b := range specialList {
 			special[b] = true
 		}
-		var specialList []int64
-		for b := range special {
-			specialList = append(specialList, b)
-		}
-		sort.Slice(specialList, func(i, j int) bool { return specialList[i] < specialList[j] })
-		nFull := r.Pick(6, 20)
-		for len(specialList) < nFull {
-			x := 1 + rng.Int63n(maxN)
-			if !special[x] {
-				special[x] = true
-				specialList = append(specialList, x)
-			}
+		// every generateMissingEcFiles call allocates 10-14 MiB of buffers whatever the shard size, which is
+		// what bounds the number of rebuilds (0.05-0.4 s each under the race detector on this machine)
+		nFull := r.Pick(1, 6)
+		if si > 0 {
+			nFull = r.Pick(0, 2)
 		}
 		fullAt := map[int64]bool{}
 		for i, b := range specialList {
@@ -404,46 +430,106 @@ func runPartA(r *lib.Run) {
 				fullAt[b] = true
 			}
 		}
-		var fullSubsets [][]int
+		// thorough: all 105 subsets of size 1 and 2 plus 100 random ones of size 3 and 4;
+		// quick: all 14 single shards, 30 random pairs, 20 random subsets of size 3 and 4
+		var quickSubsets [][]int
 		if r.Thorough() {
-			fullSubsets = allSubsets(4) // 1470 non-empty subsets of size <= 4
-		} else {
-			fullSubsets = allSubsets(2)
+			quickSubsets = allSubsets(2)
 			for i := 0; i < 100; i++ {
-				fullSubsets = append(fullSubsets, randomSubset(rng, 3+rng.Intn(2)))
+				quickSubsets = append(quickSubsets, randomSubset(rng, 3+rng.Intn(2)))
+			}
+		} else {
+			quickSubsets = allSubsets(1)
+			for i := 0; i < 30; i++ {
+				quickSubsets = append(quickSubsets, randomSubset(rng, 2))
+			}
+			for i := 0; i < 20; i++ {
+				quickSubsets = append(quickSubsets, randomSubset(rng, 3+rng.Intn(2)))
 			}
 		}
+		everySubset := allSubsets(4) // all 1470 non-empty subsets of size <= 4
+		rebuildEvery := int64(r.Pick(200, 10))
 		step := int64(1)
 		if r.Quick() && si > 0 {
 			step = 7 // coprime with the block sizes; boundaries are added below
+		} else if si == 2 {
+			step = 3 // 23 000 sizes at the largest scale: every third (coprime with 100 and 1000) plus boundaries
 		}
+		// the job list is a pure function of (seed, tier); workers only execute it
+		var jobs []job
 		for n := int64(1); n <= maxN; n++ {
 			_, _, class := rowClass(n, sc.L, sc.S)
 			onStride := (n-1)%step == 0
+			if r.Quick() && si == 0 && n > 10*sc.L+10*sc.S+10 {
+				// quick: every size up to one large row plus one small row, every third size beyond
+				// (plus everything within 1 of a row boundary and the two suspicious row classes)
+				onStride = (n-1)%3 == 0
+			}
 			nearBoundary := n%(10*sc.S) <= 1 || n%(10*sc.S) == 10*sc.S-1 || n%(10*sc.L) <= 1
-			if !onStride && !nearBoundary && !fullAt[n] && class == "normal" {
+			if !onStride && !nearBoundary && !fullAt[n] && (class == "normal" || step > 1) {
 				continue
 			}
-			buf := divs[rng.Intn(len(divs))]
-			if rng.Intn(3) > 0 {
-				buf = int(sc.S)
+			buf := int(sc.S)
+			if rng.Intn(8) == 0 {
+				buf = divs[rng.Intn(len(divs))]
 			}
 			var subs [][]int
 			if fullAt[n] {
-				subs = fullSubsets
-				r.Count("A_sizes_with_full_subset_enumeration", 1)
-			} else if n%4 == 1 || r.Thorough() {
+				subs = quickSubsets
+				if r.Thorough() && si == 0 && n == specialList[0] {
+					subs = everySubset
+					r.Count("A_sizes_with_all_1470_subsets", 1)
+				} else {
+					r.Count("A_sizes_with_subset_enumeration", 1)
+					r.Count("A_subsets_enumerated_there", int64(len(quickSubsets)))
+				}
+			} else if n%rebuildEvery == 0 {
 				subs = [][]int{randomSubset(rng, 1+rng.Intn(4))}
 			}
-			p.caseA(sc, n, buf, dat, recs, rng, subs, fullAt[n])
 			if n == maxN/3 {
 				r.Sample(map[string]interface{}{"part": "A", "L": sc.L, "S": sc.S, "n": n, "buf": buf, "records_in_source": len(recs), "subsets": len(subs)})
 			}
-			if r.Violations() > 30 {
-				return
+			// long enumerations are cut into chunks so that the workers share them
+			const chunk = 30
+			first := subs
+			if len(first) > chunk {
+				first = subs[:chunk]
+			}
+			jobs = append(jobs, job{n: n, buf: buf, subs: first, full: fullAt[n]})
+			for at := chunk; at < len(subs); at += chunk {
+				end := at + chunk
+				if end > len(subs) {
+					end = len(subs)
+				}
+				jobs = append(jobs, job{n: n, buf: buf, subs: subs[at:end], only: true})
 			}
 		}
-		r.Note(fmt.Sprintf("A_scale_%d_%d", sc.L, sc.S), fmt.Sprintf("sizes 1..%d step %d (+all sizes within 1 of a row boundary and all sizes of the two suspicious row classes), %d subsets at %d sizes", maxN, step, len(fullSubsets), nFull))
+		ch := make(chan job)
+		var wg sync.WaitGroup
+		for w := 0; w < workers; w++ {
+			wg.Add(1)
+			go func() {
+				defer wg.Done()
+				p := &partA{r: r, dir: r.SubDir("partA")}
+				defer os.RemoveAll(p.dir)
+				for j := range ch {
+					if r.Violations() > 30 {
+						continue
+					}
+					crng := r.SubRng(fmt.Sprintf("c06-A-%d-%d-%d", sc.L, sc.S, j.n))
+					p.caseA(sc, j.n, j.buf, dat, recs, crng, j.subs, j.full, j.only)
+				}
+			}()
+		}
+		for _, j := range jobs {
+			ch <- j
+		}
+		close(ch)
+		wg.Wait()
+		if r.Violations() > 30 {
+			return
+		}
+		r.Note(fmt.Sprintf("A_scale_%d_%d", sc.L, sc.S), fmt.Sprintf("sizes 1..%d step %d (+all sizes within 1 of a row boundary; at step 1 also all sizes of the two suspicious row classes); subset enumeration at %d sizes; one random subset every %d sizes", maxN, step, nFull, rebuildEvery))
 	}
 }
 
@@ -564,7 +650,8 @@ func runPartC(r *lib.Run) {
 type wrote struct {
 	Key     uint64
 	Cookie  uint32
-	Data    []byte
+	Len     int
+	CRC     uint32
 	Name    string
 	Mime    string
 	LM      uint64
@@ -579,13 +666,77 @@ type volPlan struct {
 	BigNeedles bool
 }
 
-func needleOverhead(b lib.BlobSpec) int64 {
-	// Size field of a v3 needle as prepareWriteBuffer computes it for MakeNeedle-built needles, minus len(data)
-	c := int64(4 + 1 + 1 + len(b.Name) + 1 + len(b.Mime) + 5)
-	return c
+// Large fresh allocations are very expensive under the race detector on this machine
+// (every one re-maps shadow memory), so the harness side of part B works with a few
+// reusable buffers, hard links and streaming file comparison.
+var (
+	dataBuf = make([]byte, 3*MiB)
+	bufX    = make([]byte, 3*MiB+4096)
+	bufY    = make([]byte, 3*MiB+4096)
+)
+
+// mkNeedle is lib.MakeNeedle (= needle.CreateNeedleFromRequest's flag discipline) without copying the payload.
+func mkNeedle(key uint64, cookie uint32, data []byte, name, mime string, lm uint64) *needle.Needle {
+	n := new(needle.Needle)
+	n.Id = types.NeedleId(key)
+	n.Cookie = types.Cookie(cookie)
+	n.Data = data
+	n.LastModified = lm
+	n.Ttl = needle.EMPTY_TTL
+	n.Name = []byte(name)
+	n.SetHasName()
+	n.Mime = []byte(mime)
+	n.SetHasMime()
+	n.SetHasLastModifiedDate()
+	n.Checksum = needle.NewCRC(n.Data)
+	return n
+}
+
+func needleOverhead(name, mime string) int64 {
+	// Size field of a v3 needle as prepareWriteBuffer computes it for mkNeedle-built needles, minus len(data)
+	return int64(4 + 1 + 1 + len(name) + 1 + len(mime) + 5)
+}
+
+// sameFilePrefix compares the first n bytes of two files (n < 0: whole files, lengths must match).
+func sameFilePrefix(a, b string, n int64) (bool, string) {
+	fa, err := os.Open(a)
+	if err != nil {
+		return false, err.Error()
+	}
+	defer fa.Close()
+	fb, err := os.Open(b)
+	if err != nil {
+		return false, err.Error()
+	}
+	defer fb.Close()
+	if n < 0 {
+		sa, _ := fa.Stat()
+		sb, _ := fb.Stat()
+		if sa.Size() != sb.Size() {
+			return false, fmt.Sprintf("sizes %d and %d", sa.Size(), sb.Size())
+		}
+		n = sa.Size()
+	}
+	const chunk = 256 * 1024
+	for off := int64(0); off < n; off += chunk {
+		l := n - off
+		if l > chunk {
+			l = chunk
+		}
+		na, _ := fa.ReadAt(bufX[:l], off)
+		nb, _ := fb.ReadAt(bufY[:l], off)
+		if int64(na) != l || int64(nb) != l {
+			return false, fmt.Sprintf("short read at %d: %d and %d of %d", off, na, nb, l)
+		}
+		if !bytes.Equal(bufX[:l], bufY[:l]) {
+			return false, fmt.Sprintf("bytes differ in [%d,%d)", off, off+l)
+		}
+	}
+	return true, ""
 }
 
 func runVolume(r *lib.Run, rng *rand.Rand, idxv int, plan volPlan) {
+	tStart := time.Now()
 	r.Case(map[string]interface{}{"part": "B", "plan": plan})
 	dir := r.SubDir("partB")
 	defer os.RemoveAll(dir)
@@ -597,18 +748,20 @@ func runVolume(r *lib.Run, rng *rand.Rand, idxv int, plan volPlan) {
 	var order []uint64
 	key := uint64(100)
 	datSize := func() int64 { sz, _, _ := v.FileStat(); return int64(sz) }
-	put := func(b lib.BlobSpec) {
-		n := lib.MakeNeedle(b, 1600000000+b.Key)
+	put := func(k uint64, cookie uint32, d int, name, mime string) {
+		data := dataBuf[:d]
+		rng.Read(data)
+		n := mkNeedle(k, cookie, data, name, mime, 1600000000+k)
 		_, err := s.WriteVolumeNeedle(vid, n, false)
 		r.Must(err, "WriteVolumeNeedle")
-		if model[b.Key] == nil {
-			order = append(order, b.Key)
+		if model[k] == nil {
+			order = append(order, k)
 		}
-		model[b.Key] = &wrote{Key: b.Key, Cookie: b.Cookie, Data: b.Data, Name: b.Name, Mime: b.Mime, LM: n.LastModified & (1<<40 - 1)}
+		model[k] = &wrote{Key: k, Cookie: cookie, Len: d, CRC: crc32.ChecksumIEEE(data), Name: name, Mime: mime, LM: n.LastModified & (1<<40 - 1)}
 	}
 	del := func(k uint64) {
 		w := model[k]
-		if w == nil || w.Deleted || len(w.Data) == 0 {
+		if w == nil || w.Deleted || w.Len == 0 {
 			return
 		}
 		_, err := s.DeleteVolumeNeedle(vid, &needle.Needle{Id: types.NeedleId(k), Cookie: types.Cookie(w.Cookie)})
@@ -620,6 +773,7 @@ func runVolume(r *lib.Run, rng *rand.Rand, idxv int, plan volPlan) {
 		goal = plan.Approx
 	}
 	const tail = 3 * MiB / 2
+	bigLeft := r.Pick(1, 3) // large needles are expensive here (the write path's pooled buffer re-grows after every GC)
 	for {
 		left := goal - datSize()
 		if plan.Target != 0 && left <= tail || plan.Target == 0 && left <= 0 {
@@ -629,36 +783,37 @@ func runVolume(r *lib.Run, rng *rand.Rand, idxv int, plan volPlan) {
 		switch x := rng.Intn(20); {
 		case x == 0:
 			d = 0 // empty payload (own input class)
-		case x < 8:
+		case x < 6:
 			d = 1 + rng.Intn(4096)
-		case x < 14:
+		case x < 12:
 			d = 4096 + rng.Intn(200*1024)
 		default:
-			if plan.BigNeedles {
-				d = 300*1024 + rng.Intn(2*MiB+MiB/2)
+			if plan.BigNeedles && bigLeft > 0 && rng.Intn(3) == 0 {
+				d = MiB + rng.Intn(MiB+MiB/2) // spans 2-3 small blocks
+				bigLeft--
 			} else {
-				d = 100*1024 + rng.Intn(600*1024)
+				d = 50*1024 + rng.Intn(250*1024)
 			}
 		}
 		if plan.Target != 0 && int64(d) > left-tail+MiB/2 {
 			d = rng.Intn(int(left-tail+MiB/2) + 1)
 		}
-		b := lib.BlobSpec{Key: key, Cookie: rng.Uint32(), Data: make([]byte, d)}
-		rng.Read(b.Data)
+		k, cookie := key, rng.Uint32()
+		name, mime := "", ""
 		if rng.Intn(2) == 0 {
-			b.Name = fmt.Sprintf("file-%d.dat", key)
+			name = fmt.Sprintf("file-%d.dat", key)
 		}
 		if rng.Intn(3) == 0 {
-			b.Mime = "application/x-c06"
+			mime = "application/x-c06"
 		}
-		if rng.Intn(12) == 0 && len(order) > 0 { // overwrite
-			k := order[rng.Intn(len(order))]
-			if w := model[k]; !w.Deleted && len(w.Data) > 0 && len(b.Data) > 0 {
-				b.Key, b.Cookie = k, w.Cookie
+		if rng.Intn(12) == 0 && len(order) > 0 && d > 0 { // overwrite
+			ok := order[rng.Intn(len(order))]
+			if w := model[ok]; !w.Deleted && w.Len > 0 {
+				k, cookie = ok, w.Cookie
 			}
 		}
-		put(b)
-		if b.Key == key {
+		put(k, cookie, d, name, mime)
+		if k == key {
 			key++
 		}
 		if rng.Intn(10) == 0 && len(order) > 1 {
@@ -666,37 +821,31 @@ func runVolume(r *lib.Run, rng *rand.Rand, idxv int, plan volPlan) {
 		}
 	}
 	if plan.Target != 0 {
-		// final needles land exactly on Target. If a trailing deletion is wanted, it takes 32 bytes.
+		// the last needle lands exactly on Target (minus the 32-byte deletion record if one is to follow)
 		want := plan.Target
 		if plan.TrailDel {
 			want -= needle.GetActualSize(0, needle.Version3)
 		}
-		// one filler so that the last needle is of moderate size
 		gap := want - datSize()
-		b := lib.BlobSpec{Key: key, Cookie: rng.Uint32(), Name: "last"}
-		c := needleOverhead(b)
-		// actual = 8*floor((28+d+c)/8)+8  => d = gap-36-c lands exactly (gap is a multiple of 8)
+		c := needleOverhead("last", "")
 		d := gap - 36 - c + 7
 		for ; d > gap-36-c-8 && d >= 1; d-- {
-			sz := types.Size(d + c)
-			if needle.GetActualSize(sz, needle.Version3) == gap {
+			if needle.GetActualSize(types.Size(d+c), needle.Version3) == gap {
 				break
 			}
 		}
-		if d < 1 {
+		if d < 1 || d > int64(len(dataBuf)) {
 			r.Inconclusive(fmt.Sprintf("harness: cannot hit target size %d (gap %d)", plan.Target, gap))
 			s.Close()
 			return
 		}
-		b.Data = make([]byte, d)
-		rng.Read(b.Data)
-		put(b)
+		put(key, rng.Uint32(), int(d), "last", "")
 		key++
 	}
 	if plan.TrailDel {
-		// delete the first live, non-empty key: the .dat then ends with a deletion record
+		// delete a live, non-empty key: the .dat then ends with a deletion record
 		for _, k := range order {
-			if w := model[k]; !w.Deleted && len(w.Data) > 0 && k != key-1 {
+			if w := model[k]; !w.Deleted && w.Len > 0 && k != key-1 {
 				del(k)
 				break
 			}
@@ -707,6 +856,12 @@ func runVolume(r *lib.Run, rng *rand.Rand, idxv int, plan volPlan) {
 		s.Close()
 		return
 	}
+	tPhase := tStart
+	phase := func(name string) { // informational only
+		fmt.Fprintf(os.Stderr, "partB %s: %s %.1fs\n", plan.Name, name, time.Since(tPhase).Seconds())
+		tPhase = time.Now()
+	}
+	phase("write")
 	// encode exactly as VolumeEcShardsGenerate does
 	r.Must(s.MarkVolumeReadonly(vid), "MarkVolumeReadonly")
 	base := v.DataFileName()
@@ -717,11 +872,12 @@ func runVolume(r *lib.Run, rng *rand.Rand, idxv int, plan volPlan) {
 	}
 	r.Must(ec.WriteSortedFileFromIdx(v.IndexFileName(), ".ecx"), "WriteSortedFileFromIdx")
 	r.Must(pb.SaveVolumeInfo(base+".vif", &volume_server_pb.VolumeInfo{Version: uint32(v.Version())}), "SaveVolumeInfo")
-	orig, err := ioutil.ReadFile(base + ".dat")
-	r.Must(err, "read original .dat")
-	origShards, err := readShards(base)
-	r.Must(err, "read shards")
-	n := int64(len(orig))
+	origDat := filepath.Join(dir, "orig.dat.keep")
+	r.Must(os.Link(base+".dat", origDat), "keep original .dat")
+	n := datSize()
+	st0, err := os.Stat(base + ec.ToExt(0))
+	r.Must(err, "stat shard")
+	shardSize := st0.Size()
 	_, nSmall, _ := rowClass(n, ec.ErasureCodingLargeBlockSize, ec.ErasureCodingSmallBlockSize)
 	boundary := "inside-row"
 	switch {
@@ -735,15 +891,15 @@ func runVolume(r *lib.Run, rng *rand.Rand, idxv int, plan volPlan) {
 	r.Count("B_volumes", 1)
 	r.Count("B_volumes_"+boundary, 1)
 	det := func(extra map[string]interface{}) map[string]interface{} {
-		m := map[string]interface{}{"part": "B", "plan": plan, "volume_index": idxv, "dat_size": n, "small_rows": nSmall, "shard_size": len(origShards[0]), "needles": len(order)}
+		m := map[string]interface{}{"part": "B", "plan": plan, "volume_index": idxv, "dat_size": n, "small_rows": nSmall, "shard_size": shardSize, "needles": len(order)}
 		for k, v := range extra {
 			m[k] = v
 		}
 		return m
 	}
-	// the source volume goes away (as after ec.encode), shards get mounted
+	phase("encode")
+	// the source volume goes away (as after ec.encode); shards and .ecx stay and get mounted
 	r.Must(s.DeleteVolume(vid), "DeleteVolume")
-	// DeleteVolume removed .dat/.idx/.vif; shards and .ecx stay
 	for i := 0; i < ec.TotalShardsCount; i++ {
 		if err := s.MountEcShards("", vid, ec.ShardId(i)); err != nil {
 			r.Violation(lib.Sig{"op": "mount", "class": "error", "scale": "production"}, det(map[string]interface{}{"shard": i, "err": err.Error()}))
@@ -758,6 +914,15 @@ func runVolume(r *lib.Run, rng *rand.Rand, idxv int, plan volPlan) {
 		return
 	}
 	ev.ShardLocationsRefreshTime = time.Now().Add(100 * time.Hour) // all shards are local: never ask a master
+	datF, err := os.Open(origDat)
+	r.Must(err, "open original .dat")
+	defer datF.Close()
+	shardF := make([]*os.File, ec.DataShardsCount)
+	for i := range shardF {
+		shardF[i], err = os.Open(base + ec.ToExt(i))
+		r.Must(err, "open shard")
+		defer shardF[i].Close()
+	}
 	multi := 0
 	for _, k := range order {
 		w := model[k]
@@ -765,7 +930,7 @@ func runVolume(r *lib.Run, rng *rand.Rand, idxv int, plan volPlan) {
 		_, err := s.ReadEcShardNeedle(vid, nd)
 		r.Eval(1)
 		input := "nonempty"
-		if len(w.Data) == 0 {
+		if w.Len == 0 {
 			input = "empty-payload"
 		}
 		if w.Deleted {
@@ -777,14 +942,14 @@ func runVolume(r *lib.Run, rng *rand.Rand, idxv int, plan volPlan) {
 		}
 		r.Count("B_reads_live", 1)
 		if err != nil {
-			r.Violation(lib.Sig{"op": "ec-read", "class": "error", "input": input, "row": boundary}, det(map[string]interface{}{"key": k, "err": err.Error(), "len": len(w.Data)}))
+			r.Violation(lib.Sig{"op": "ec-read", "class": "error", "input": input, "row": boundary}, det(map[string]interface{}{"key": k, "err": err.Error(), "len": w.Len}))
 			continue
 		}
-		if !bytes.Equal(nd.Data, w.Data) || uint32(nd.Cookie) != w.Cookie {
-			r.Violation(lib.Sig{"op": "ec-read", "class": "data-differs", "input": input, "row": boundary}, det(map[string]interface{}{"key": k, "len": len(w.Data), "got_len": len(nd.Data)}))
+		if len(nd.Data) != w.Len || crc32.ChecksumIEEE(nd.Data) != w.CRC || uint32(nd.Cookie) != w.Cookie {
+			r.Violation(lib.Sig{"op": "ec-read", "class": "data-differs", "input": input, "row": boundary}, det(map[string]interface{}{"key": k, "len": w.Len, "got_len": len(nd.Data)}))
 			continue
 		}
-		if len(w.Data) > 0 && (string(nd.Name) != w.Name || string(nd.Mime) != w.Mime || nd.LastModified != w.LM) {
+		if w.Len > 0 && (string(nd.Name) != w.Name || string(nd.Mime) != w.Mime || nd.LastModified != w.LM) {
 			r.Violation(lib.Sig{"op": "ec-read", "class": "metadata-differs", "input": input}, det(map[string]interface{}{"key": k, "name": string(nd.Name), "mime": string(nd.Mime)}))
 		}
 		// the record's raw bytes through the locator, against the original .dat
@@ -793,17 +958,32 @@ func runVolume(r *lib.Run, rng *rand.Rand, idxv int, plan volPlan) {
 			if len(intervals) > 1 {
 				multi++
 			}
-			var raw []byte
+			a, l := off.ToActualOffset(), needle.GetActualSize(size, ev.Version)
+			raw := bufX[:0]
+			bad := ""
 			for _, iv := range intervals {
 				id, o := iv.ToShardIdAndOffset(ec.ErasureCodingLargeBlockSize, ec.ErasureCodingSmallBlockSize)
-				if o+int64(iv.Size) <= int64(len(origShards[id])) {
-					raw = append(raw, origShards[id][o:o+int64(iv.Size)]...)
+				if int(id) >= len(shardF) || len(raw)+int(iv.Size) > cap(bufX) {
+					bad = fmt.Sprintf("interval shard %d size %d", id, iv.Size)
+					break
+				}
+				piece := bufX[len(raw) : len(raw)+int(iv.Size)]
+				if nr, _ := shardF[id].ReadAt(piece, o); nr != len(piece) {
+					bad = fmt.Sprintf("short read of shard %d at %d: %d of %d", id, o, nr, len(piece))
+					break
+				}
+				raw = bufX[:len(raw)+int(iv.Size)]
+			}
+			r.Eval(1)
+			if bad == "" {
+				if a+l > n || int64(len(raw)) != l {
+					bad = fmt.Sprintf("record [%d,%d) vs file size %d, fetched %d", a, a+l, n, len(raw))
+				} else if nr, _ := datF.ReadAt(bufY[:l], a); int64(nr) != l || !bytes.Equal(raw, bufY[:l]) {
+					bad = "raw record bytes differ from the original .dat"
 				}
 			}
-			a, l := off.ToActualOffset(), needle.GetActualSize(size, ev.Version)
-			r.Eval(1)
-			if a+l > n || !bytes.Equal(raw, orig[a:a+l]) {
-				r.Violation(lib.Sig{"op": "locate", "class": "bytes-differ", "scale": "production", "row": boundary}, det(map[string]interface{}{"key": k, "off": a, "len": l}))
+			if bad != "" {
+				r.Violation(lib.Sig{"op": "locate", "class": "bytes-differ", "scale": "production", "row": boundary}, det(map[string]interface{}{"key": k, "off": a, "len": l, "msg": bad}))
 			}
 		}
 	}
@@ -818,19 +998,17 @@ func runVolume(r *lib.Run, rng *rand.Rand, idxv int, plan volPlan) {
 	r.Count("B_multi_interval_needles", int64(multi))
 	s.Close()
 
+	phase("ec-reads")
 	// decode: .ec00-.ec09 + .ecx -> .dat
-	ecx, err := ioutil.ReadFile(v.IndexFileName() + ".ecx")
-	r.Must(err, "read .ecx")
 	ddir := filepath.Join(dir, "decode")
 	r.Must(os.MkdirAll(ddir, 0755), "mkdir")
 	dbase := filepath.Join(ddir, fmt.Sprint(uint32(vid)))
 	for i := 0; i < ec.DataShardsCount; i++ {
-		r.Must(ioutil.WriteFile(dbase+ec.ToExt(i), origShards[i], 0644), "copy shard")
+		r.Must(os.Link(base+ec.ToExt(i), dbase+ec.ToExt(i)), "link shard")
 	}
-	r.Must(ioutil.WriteFile(dbase+".ecx", ecx, 0644), "copy ecx")
+	r.Must(os.Link(v.IndexFileName()+".ecx", dbase+".ecx"), "link ecx")
 	dsz, err := ec.FindDatFileSize(dbase, dbase)
 	r.Eval(1)
-	// end of the last live record, from the model side: the largest record end in the .ecx
 	lastIsLive := !plan.TrailDel
 	switch {
 	case err != nil:
@@ -841,10 +1019,11 @@ func runVolume(r *lib.Run, rng *rand.Rand, idxv int, plan volPlan) {
 		if err := ec.WriteDatFile(dbase, dsz); err != nil {
 			r.Violation(lib.Sig{"op": "decode", "class": "error", "row": boundary}, det(map[string]interface{}{"err": err.Error(), "found": dsz}))
 		} else {
-			dec, _ := ioutil.ReadFile(dbase + ".dat")
+			st, _ := os.Stat(dbase + ".dat")
+			same, msg := sameFilePrefix(dbase+".dat", origDat, dsz)
 			r.Eval(1)
-			if !bytes.Equal(dec, orig[:dsz]) {
-				r.Violation(lib.Sig{"op": "decode", "class": "dat-differs", "row": boundary}, det(map[string]interface{}{"found": dsz, "decoded_len": len(dec)}))
+			if st == nil || st.Size() != dsz || !same {
+				r.Violation(lib.Sig{"op": "decode", "class": "dat-differs", "row": boundary}, det(map[string]interface{}{"found": dsz, "msg": msg}))
 			}
 			r.Count("B_decoded_bytes", dsz)
 			if dsz < n {
@@ -854,41 +1033,51 @@ func runVolume(r *lib.Run, rng *rand.Rand, idxv int, plan volPlan) {
 	}
 	os.RemoveAll(ddir)
 
+	phase("decode")
 	// rebuild: lose up to 4 shards
 	rdir := filepath.Join(dir, "rebuild")
 	r.Must(os.MkdirAll(rdir, 0755), "mkdir")
 	rbase := filepath.Join(rdir, fmt.Sprint(uint32(vid)))
-	subsets := [][]int{{0, 1, 2, 3}, {10, 11, 12, 13}, randomSubset(rng, 1+rng.Intn(4)), randomSubset(rng, 4)}
-	if r.Thorough() {
-		for i := 0; i < 6; i++ {
-			subsets = append(subsets, randomSubset(rng, 1+rng.Intn(4)))
-		}
+	// each RebuildEcFiles call allocates >= 14 MiB of buffers: one call per volume in the quick tier
+	subsets := [][]int{randomSubset(rng, 4)}
+	switch idxv % 3 {
+	case 1:
+		subsets[0] = []int{0, 1, 2, 3}
+	case 2:
+		subsets[0] = randomSubset(rng, 1+rng.Intn(3))
 	}
-	for i := 0; i < ec.TotalShardsCount; i++ {
-		r.Must(ioutil.WriteFile(rbase+ec.ToExt(i), origShards[i], 0644), "copy shard")
+	if r.Thorough() {
+		subsets = append(subsets, []int{10, 11, 12, 13}, randomSubset(rng, 1+rng.Intn(4)))
 	}
 	for _, sub := range subsets {
+		lost := map[int]bool{}
 		for _, id := range sub {
-			r.Must(os.Remove(rbase+ec.ToExt(id)), "remove shard")
+			lost[id] = true
+		}
+		for i := 0; i < ec.TotalShardsCount; i++ {
+			os.Remove(rbase + ec.ToExt(i))
+			if !lost[i] {
+				r.Must(os.Link(base+ec.ToExt(i), rbase+ec.ToExt(i)), "link shard")
+			}
 		}
 		gen, err := ec.RebuildEcFiles(rbase)
 		r.Eval(1)
 		r.Count(fmt.Sprintf("B_rebuild_k%d", len(sub)), 1)
 		if err != nil {
 			r.Violation(lib.Sig{"op": "rebuild", "class": "error", "scale": "production", "lost": fmt.Sprint(len(sub))}, det(map[string]interface{}{"lost": sub, "err": err.Error()}))
+			continue
 		} else if len(gen) != len(sub) {
 			r.Violation(lib.Sig{"op": "rebuild", "class": "wrong-shard-set", "scale": "production", "lost": fmt.Sprint(len(sub))}, det(map[string]interface{}{"lost": sub, "generated": gen}))
 		}
 		for _, id := range sub {
-			b, _ := ioutil.ReadFile(rbase + ec.ToExt(id))
-			if !bytes.Equal(b, origShards[id]) {
-				r.Violation(lib.Sig{"op": "rebuild", "class": "shard-differs", "scale": "production", "lost": fmt.Sprint(len(sub))}, det(map[string]interface{}{"lost": sub, "shard": id, "len": len(b)}))
-				_ = ioutil.WriteFile(rbase+ec.ToExt(id), origShards[id], 0644)
+			if same, msg := sameFilePrefix(rbase+ec.ToExt(id), base+ec.ToExt(id), -1); !same {
+				r.Violation(lib.Sig{"op": "rebuild", "class": "shard-differs", "scale": "production", "lost": fmt.Sprint(len(sub))}, det(map[string]interface{}{"lost": sub, "shard": id, "msg": msg}))
 			}
 		}
 	}
+	phase("rebuild")
 	r.Nontrivial(fmt.Sprintf("B/%s/%d/%d", plan.Name, n, len(order)))
-	r.Sample(map[string]interface{}{"part": "B", "plan": plan, "dat_size": n, "needles": len(order), "multi_interval_needles": multi, "shard_size": len(origShards[0])})
+	r.Sample(map[string]interface{}{"part": "B", "plan": plan, "dat_size": n, "needles": len(order), "multi_interval_needles": multi, "shard_size": shardSize})
 }
 
 func runPartB(r *lib.Run) {
@@ -921,6 +1110,7 @@ func runPartB(r *lib.Run) {
 }
 
 func main() {
+	lib.ReexecWithResidentShadow() // see lib/tsanenv.go: large allocations under the race detector are otherwise ~50x slower here
 	r := lib.Start("C06", "exploration")
 	r.SetRule("part A: (block-size scale (L,S), .dat size n) with the .dat being the first n bytes of a seeded real volume file; every case encodes with the real encoder, fetches byte ranges (whole file, every needle record, offsets around all row and sampled block boundaries x sizes around S, L, 10S, 10L, to-end) with LocateData(L,S,10*shardSize,..)+ToShardIdAndOffset and rebuilds lost shard subsets; distinct = distinct (scale, n). part B: volumes written through a real Store with production constants, encoded like VolumeEcShardsGenerate, all needles read by Store.ReadEcShardNeedle, decoded by FindDatFileSize+WriteDatFile, shards rebuilt by RebuildEcFiles; distinct = distinct (plan, .dat size, needle count). non-trivial = at least one range compared")
 	r.Assume("shard bytes are read from the shard files into memory and sliced; this is equivalent to EcVolumeShard.ReadAt (a plain file ReadAt), an interval that ends beyond the shard file counts as refuting (the production read fails with EOF)")
@@ -944,7 +1134,7 @@ func main() {
 			rng := r.SubRng(fmt.Sprintf("c06-A-%d-%d", sc.L, sc.S))
 			dat, recs := buildVolume(r, rng, 2*10*sc.L+3*10*sc.S, int(sc.S*4))
 			p := &partA{r: r, dir: r.SubDir("partA")}
-			p.caseA(sc, d.N, d.Buf, dat, recs, rng, allSubsets(2), true)
+			p.caseA(sc, d.N, d.Buf, dat, recs, rng, allSubsets(2), true, false)
 		} else if d.Part == "C" {
 			runPartC(r)
 		} else {
@@ -955,14 +1145,34 @@ func main() {
 		r.Finish(0)
 	}
 
-	runPartA(r)
-	runPartC(r)
-	runPartB(r)
+	parts := os.Getenv("VERIF_C06_PARTS") // debugging aid only: run a subset of the parts
+	if pf := os.Getenv("VERIF_CPUPROFILE"); pf != "" {
+		f, _ := os.Create(pf)
+		pprof.StartCPUProfile(f)
+		defer pprof.StopCPUProfile()
+	}
+	t0 := time.Now()
+	if parts == "" || strings.Contains(parts, "A") {
+		runPartA(r)
+	}
+	t1 := time.Now()
+	if parts == "" || strings.Contains(parts, "C") {
+		runPartC(r)
+	}
+	t2 := time.Now()
+	if parts == "" || strings.Contains(parts, "B") {
+		runPartB(r)
+	}
+	fmt.Fprintf(os.Stderr, "timing (informational): partA %.1fs partC %.1fs partB %.1fs\n", t1.Sub(t0).Seconds(), t2.Sub(t1).Seconds(), time.Since(t2).Seconds())
+	if parts != "" || os.Getenv("VERIF_C06_NOREBUILD") != "" {
+		r.Inconclusive("VERIF_C06_PARTS / VERIF_C06_NOREBUILD set: partial run")
+	}
 	if r.Counter("A_ranges_needle") == 0 || r.Counter("A_ranges_stride") == 0 || r.Counter("B_reads_live") == 0 || r.Counter("B_decoded_bytes") == 0 {
 		r.Inconclusive("a part of the check observed nothing (needle ranges / stride ranges / EC reads / decode)")
 	}
 	if r.Counter("B_multi_interval_needles") == 0 {
 		r.Inconclusive("no needle spanning several blocks was read through the EC path")
 	}
+	pprof.StopCPUProfile()
 	r.Finish(r.Pick(300, 2000))
 }
